@@ -104,6 +104,8 @@ structure Env where
   /-- `'%d%d' % (time.time(), os.getpid())` -/
   serial : Str
   clientWrap : CwOut
+  /-- which names `ipaddress.ip_address` accepts (decides `IP:` vs `DNS:` in the leaf's SAN) -/
+  isIp : Str → Bool := fun _ => false
 
 inductive Eff
   /-- `self.client.queue(pkt)` -/
@@ -204,17 +206,18 @@ def andThen (r : List Eff × List Str × Nat × GenEnd)
 def genCaSigned (cfg : Cfg) (env : Env) (host : Str) (fs : List Str) : List Eff × List Str × Nat × GenEnd :=
   let dir := cfg.caCertDir.getD []
   let signKey := cfg.caSigningKeyFile.getD []
-  let alt := some [host]
+  -- `alt_subj_names = [text_(request.host) without one pair of surrounding brackets]`
+  let alt := some [stripBrackets host]
   let subject := buildSubject env.subject
   let pub := pubKeyPath dir host
   let csr := csrPath dir host
   let crt := certFilePath dir host
   andThen
     (andThen
-      (genStep env fs 0 pub (fun tmp => genPublicKey cfg.openssl pub signKey [] subject alt none validityDays tmp))
+      (genStep env fs 0 pub (fun tmp => genPublicKey env.isIp cfg.openssl pub signKey [] subject alt none validityDays tmp))
       (fun fs1 k1 => genStep env fs1 k1 csr (fun _ => genCsr cfg.openssl csr signKey [] pub)))
     (fun fs2 k2 => genStep env fs2 k2 crt
-      (fun tmp => signCsr cfg.openssl csr crt (cfg.caKeyFile.getD []) [] (cfg.caCertFile.getD [])
+      (fun tmp => signCsr env.isIp cfg.openssl csr crt (cfg.caKeyFile.getD []) [] (cfg.caCertFile.getD [])
                     env.serial alt none validityDays tmp))
 
 /-- `generate_upstream_certificate(certificate)`: `none` = `HttpProtocolException`
@@ -260,10 +263,11 @@ def wrapClient (cfg : Cfg) (env : Env) (host : Str) : List Eff × Post :=
       (effs ++ [w], { res := .teardown, clientTls := false, upstreamTls := true, upstreamDetached := false,
                       clientBuf := [], fs := fs })
 
-/-- `wrap_server()`'s call: `self.upstream.wrap(text_(self.request.host), self.flags.ca_file,
-    as_non_blocking=True, verify_mode=CERT_NONE if insecure else CERT_REQUIRED)` -/
+/-- `wrap_server()`'s call: `self.upstream.wrap(server_hostname, self.flags.ca_file,
+    as_non_blocking=True, verify_mode=CERT_NONE if insecure else CERT_REQUIRED)` where
+    `server_hostname` is `text_(self.request.host)` without one pair of surrounding brackets -/
 def upstreamParams (cfg : Cfg) (host : Str) : WrapParams :=
-  serverWrapParams (some host) cfg.caFile cfg.insecure
+  serverWrapParams (some (stripBrackets host)) cfg.caFile cfg.insecure
 
 /-- `intercept()`: `wrap_server()`; on failure return at once; else `wrap_client()` -/
 def intercept (cfg : Cfg) (env : Env) (host : Str) : List Eff × Post :=
